@@ -129,9 +129,12 @@ def State.next (s : State) (greet : Option Val) (v : Val) : State × List Delive
     | some obs => bcast greet v s obs
     | none => (s, [])
 
-/-- `observers.into_iter().filter(|o| !o.p_is_closed()).for_each(|o| o.p_error(e))`
-    (lazy: the filter of an entry runs right before its delivery); the slot's
-    `error/complete` takes the observer out of the cell, then calls it. -/
+/-- `observers.into_iter().for_each(|o| o.p_error(e))`: EVERY entry is handed the
+    terminal (after `fix: Subject::error/complete hand the terminal to every
+    subscriber`; before it a `.filter(|o| !o.p_is_closed())` stood in front, which for
+    a probe — `is_finished()` constantly false — skipped exactly the entries whose
+    slot is empty).  The slot's `error/complete` takes the observer out of the cell,
+    then calls it; an entry whose slot was emptied by `unsubscribe()` does nothing. -/
 def term (n : Notif) : State → List SlotId → State × List Delivery
   | s, [] => (s, [])
   | s, i :: r =>
